@@ -172,6 +172,7 @@ class History:
         self.classes_touched = {}
         self._fresh_key = None
         self._fresh = None
+        self.oracle = True
         self.last_update = "none"
         self.last_update_kind = "none"
         self.operators = {}
@@ -212,6 +213,8 @@ class History:
 
         self.stats["reads"] += 1
         sysv = observe(self.dic[oid], acc)
+        if not self.oracle:
+            return True
         fr = self.fresh()
         if fr is None:
             self.stats["unjudged_reads"] = self.stats.get("unjudged_reads", 0) + 1
@@ -346,9 +349,13 @@ class History:
         """An update is valid iff the same update succeeds on a freshly built model
         holding the values the running model had before the update."""
         try:
+            twin_dic = freshlib.build(freshlib.substitute(self.spec, vals_before))
+        except Exception:  # noqa: BLE001 - no reference exists for this state: cannot be judged
+            return True
+        try:
             twin = History.__new__(History)
             twin.spec, twin.domains, twin.log = self.spec, self.domains, EventLog()
-            twin.dic = freshlib.build(freshlib.substitute(self.spec, vals_before))
+            twin.dic = twin_dic
             twin.obs, twin.violations, twin.stats = [], [], {"ops": 0, "updates": 0}
             twin.flag_states, twin.classes_touched = set(), {}
             twin._fresh_key, twin._fresh, twin.last_update, twin.operators = None, None, "", {}
@@ -507,6 +514,7 @@ def generate(seed, index, tier):
     ops = []
     # state tracking for value generation: run the ops on a scratch history
     hist = History(spec, domains, EventLog())
+    hist.oracle = False  # the scratch copy only tracks state (reads of stochastic observables rewrite parameters)
 
     def current(pid):
         return hist.dic[pid].tensor
@@ -575,6 +583,8 @@ def generate(seed, index, tier):
             op = {"op": "propose", "id": pid, "operator": oper, "seed": w.next64() & 0x7FFFFFFF, "then": w.choice(["accept", "reject", "reject"])}
         elif u < 0.96:
             pid = w.choice(upd)
+            if not current(pid).is_leaf:
+                continue  # torch only allows changing the flag of leaf tensors
             op = {"op": "requires_grad", "id": pid, "value": w.bernoulli(0.5)}
         else:
             from torchtree.core.model import CallableModel as _CM
@@ -588,10 +598,12 @@ def generate(seed, index, tier):
         if op is None:
             continue
         ops.append(op)
-        if op["op"] not in ("eval",):
-            ok = hist.apply(copy.deepcopy(op))
-            if not ok:
-                break
+        op2 = copy.deepcopy(op)
+        if op2["op"] == "eval":
+            op2["targets"] = [tuple(t) for t in op2["targets"]]
+        ok = hist.apply(op2)
+        if not ok:
+            break
     ops.append({"op": "eval", "targets": [list(t) for t in obs]})
     return {"recipe": recipe, "ops": ops, "policy": policy, "seed": run_seed(seed, PROP, index)}
 
